@@ -39,8 +39,11 @@ func (x *Exec) step(fr *Frame, st *State, in ssa.Instruction) {
 	case *ssa.Store:
 		p := x.asPtr(x.value(fr, i.Addr))
 		x.nilCheck(fr, st, p, i.Pos())
+		nv := x.coerce(x.value(fr, i.Val), p.elemType(x))
+		x.hookNew = nv
 		x.codeAccess(fr, st, p, true, i.Pos())
-		x.store(st, p, x.coerce(x.value(fr, i.Val), p.elemType(x)))
+		x.hookNew = nil
+		x.store(st, p, nv)
 	case *ssa.Phi:
 		return
 	case *ssa.ChangeType:
@@ -240,11 +243,8 @@ func (x *Exec) indexAddr(fr *Frame, st *State, i *ssa.IndexAddr) Value {
 	switch v := x.value(fr, i.X).(type) {
 	case SliceV:
 		x.safety(fr, st, "bounds", "index", "(bvult "+idx+" "+v.Len+")", i.Pos())
-		off := idx
-		if v.Off != bvLit(0, 64) {
-			off = "(bvadd " + v.Off + " " + idx + ")"
-		}
-		return Ptr{Base: v.Base, Root: types.NewSlice(v.Elem), Path: []Step{{Idx: off}}, Fresh: true, Own: v.Own, New: v.New}
+		off := elemAt(v.Off, idx)
+		return Ptr{Base: v.Base, Root: x.regionOf(v).root(), Path: []Step{{Idx: off}}, Fresh: true, Own: v.Own, New: v.New}
 	case Ptr: // pointer to array
 		x.nilCheck(fr, st, v, i.Pos())
 		at, ok := v.elemType(x).Underlying().(*types.Array)
@@ -591,13 +591,14 @@ func (x *Exec) convert(fr *Frame, st *State, v Value, from, to types.Type) Value
 func (x *Exec) bytesToString(st *State, s SliceV, to types.Type) Value {
 	r := x.em.freshConst("str", "Str")
 	x.em.assume(eq("(slen "+r+")", s.Len))
-	l := x.leaf("[]uint8", 1, "(_ BitVec 8)")
+	s = x.regionOf(s)
+	l := x.leaf(s.key(), 1, "(_ BitVec 8)")
 	arr := "(select " + x.heapGet(st, l) + " " + s.Base + ")"
 	if s.Off == bvLit(0, 64) {
 		x.em.assume(eq("(sarr "+r+")", arr))
 	} else {
 		q := x.em.fresh("i")
-		x.em.assume(fmt.Sprintf("(forall ((%s (_ BitVec 64))) (! (=> (bvult %s %s) (= (select (sarr %s) %s) (select %s (bvadd %s %s)))) :pattern ((select (sarr %s) %s))))",
+		x.em.assume(fmt.Sprintf("(forall ((%s (_ BitVec 64))) (! (=> (bvult %s %s) (= (select (sarr %s) %s) (select %s (at %s %s)))) :pattern ((select (sarr %s) %s))))",
 			q, q, s.Len, r, q, arr, s.Off, q, r, q))
 	}
 	return Scalar{T: r, Typ: to}
@@ -808,7 +809,7 @@ func (x *Exec) sliceOp(fr *Frame, st *State, i *ssa.Slice) Value {
 		if lo != z {
 			off = "(bvadd " + v.Off + " " + lo + ")"
 		}
-		r := SliceV{Base: v.Base, Off: off, Len: bvsub(hi, lo), Cap: bvsub(mx, lo), Elem: v.Elem, Own: v.Own, New: v.New}
+		r := SliceV{Base: v.Base, Off: off, Len: bvsub(hi, lo), Cap: bvsub(mx, lo), Elem: v.Elem, Own: v.Own, New: v.New, Region: v.Region}
 		return x.nameValue(r, i.Name())
 	case Ptr: // pointer to array
 		at, ok := v.elemType(x).Underlying().(*types.Array)
@@ -847,6 +848,14 @@ func bvsub(a, b string) string {
 		return a
 	}
 	return "(bvsub " + a + " " + b + ")"
+}
+
+// elemAt is the index of element i of a slice with offset off inside its
+// backing array. It is an uninterpreted function with the defining axiom
+// (at o i) = o + i, so that quantifier patterns over slice elements do not
+// contain interpreted arithmetic (E-matching on bvadd is unreliable).
+func elemAt(off, i string) string {
+	return "(at " + off + " " + i + ")"
 }
 
 func bvadd(a, b string) string {
@@ -893,21 +902,24 @@ func (x *Exec) appendOp(fr *Frame, st *State, s, e SliceV, pos token.Pos) Value 
 	ncap := x.em.freshConst("appcap", "(_ BitVec 64)")
 	x.em.assume(fmt.Sprintf("(and (bvule %s %s) (bvule %s %s))", newLen, ncap, ncap, maxCap))
 	rcap := x.em.define("appcap", "(_ BitVec 64)", ite(fits, s.Cap, ncap))
-	var leaves [][2]string
-	x.elemLeaves(s.Elem, rootKey(types.NewSlice(s.Elem)), &leaves)
-	for _, lf := range leaves {
+	s = x.regionOf(s)
+	e = x.regionOf(e)
+	var leaves, eleaves [][2]string
+	x.elemLeaves(s.Elem, s.key(), &leaves)
+	x.elemLeaves(e.Elem, e.key(), &eleaves)
+	for li, lf := range leaves {
 		l := x.leaf(lf[0], 1, lf[1])
 		cur := x.heapGet(st, l)
 		olds := "(select " + cur + " " + s.Base + ")"
-		olde := "(select " + cur + " " + e.Base + ")"
+		olde := "(select " + x.heapGet(st, x.leaf(eleaves[li][0], 1, eleaves[li][1])) + " " + e.Base + ")"
 		var inner string
 		if e.Len == bvLit(1, 64) {
-			inner = "(store " + olds + " " + bvadd(s.Off, s.Len) + " (select " + olde + " " + e.Off + "))"
+			inner = "(store " + olds + " " + elemAt(s.Off, s.Len) + " (select " + olde + " " + elemAt(e.Off, bvLit(0, 64)) + "))"
 		} else {
 			inner = x.em.freshConst("appdata", l.InnerSort(0))
 			q := x.em.fresh("i")
-			x.em.assume(fmt.Sprintf("(forall ((%s (_ BitVec 64))) (! (=> (bvult %s %s) (= (select %s (bvadd %s (bvadd %s %s))) (select %s (bvadd %s %s)))) :pattern ((select %s (bvadd %s (bvadd %s %s))))))",
-				q, q, e.Len, inner, s.Off, s.Len, q, olde, e.Off, q, inner, s.Off, s.Len, q))
+			x.em.assume(fmt.Sprintf("(forall ((%s (_ BitVec 64))) (! (=> (bvult %s %s) (= (select %s (at %s (bvadd %s %s))) (select %s (at %s %s)))) :pattern ((select %s (at %s (bvadd %s %s)))) :pattern ((select %s (at %s %s)))))",
+				q, q, e.Len, inner, s.Off, s.Len, q, olde, e.Off, q, inner, s.Off, s.Len, q, olde, e.Off, q))
 			x.em.assume(fmt.Sprintf("(forall ((%s (_ BitVec 64))) (! (=> (not (and (bvule (bvadd %s %s) %s) (bvult %s (bvadd %s %s)))) (= (select %s %s) (select %s %s))) :pattern ((select %s %s))))",
 				q, s.Off, s.Len, q, q, s.Off, newLen, inner, q, olds, q, inner, q))
 		}
@@ -918,21 +930,24 @@ func (x *Exec) appendOp(fr *Frame, st *State, s, e SliceV, pos token.Pos) Value 
 		x.storeNew = saved
 	}
 	_ = pos
-	return SliceV{Base: rb, Off: s.Off, Len: newLen, Cap: rcap, Elem: s.Elem, Own: nil, New: s.New}
+	return SliceV{Base: rb, Off: s.Off, Len: newLen, Cap: rcap, Elem: s.Elem, Own: nil, New: s.New, Region: s.Region}
 }
 
 func (x *Exec) copyOp(fr *Frame, st *State, d, s SliceV) Value {
 	n := x.em.define("copyn", "(_ BitVec 64)", ite("(bvult "+d.Len+" "+s.Len+")", d.Len, s.Len))
-	var leaves [][2]string
-	x.elemLeaves(d.Elem, rootKey(types.NewSlice(d.Elem)), &leaves)
-	for _, lf := range leaves {
+	d = x.regionOf(d)
+	s = x.regionOf(s)
+	var leaves, sleaves [][2]string
+	x.elemLeaves(d.Elem, d.key(), &leaves)
+	x.elemLeaves(s.Elem, s.key(), &sleaves)
+	for li, lf := range leaves {
 		l := x.leaf(lf[0], 1, lf[1])
 		cur := x.heapGet(st, l)
 		inner := x.em.freshConst("copydata", l.InnerSort(0))
 		q := x.em.fresh("i")
 		oldd := "(select " + cur + " " + d.Base + ")"
-		olds := "(select " + cur + " " + s.Base + ")"
-		x.em.assume(fmt.Sprintf("(forall ((%s (_ BitVec 64))) (! (=> (bvult %s %s) (= (select %s (bvadd %s %s)) (select %s (bvadd %s %s)))) :pattern ((select %s (bvadd %s %s)))))",
+		olds := "(select " + x.heapGet(st, x.leaf(sleaves[li][0], 1, sleaves[li][1])) + " " + s.Base + ")"
+		x.em.assume(fmt.Sprintf("(forall ((%s (_ BitVec 64))) (! (=> (bvult %s %s) (= (select %s (at %s %s)) (select %s (at %s %s)))) :pattern ((select %s (at %s %s)))))",
 			q, q, n, inner, d.Off, q, olds, s.Off, q, inner, d.Off, q))
 		x.em.assume(fmt.Sprintf("(forall ((%s (_ BitVec 64))) (! (=> (not (and (bvule %s %s) (bvult %s (bvadd %s %s)))) (= (select %s %s) (select %s %s))) :pattern ((select %s %s))))",
 			q, d.Off, q, q, d.Off, n, inner, q, oldd, q, inner, q))
@@ -982,6 +997,9 @@ func (x *Exec) codeAccess(fr *Frame, st *State, p Ptr, write bool, pos token.Pos
 	if x.pure > 0 || len(x.P.specs.Hooks) == 0 {
 		return
 	}
+	pp := p
+	x.hookPtr = &pp
+	defer func() { x.hookPtr = nil }()
 	if p.Own != nil {
 		for _, h := range x.P.specs.Hooks {
 			if h.Elems && h.Key == p.Own.Key {
@@ -1012,6 +1030,17 @@ func (x *Exec) applyHook(fr *Frame, st *State, h *Hook, this Ptr, write bool, po
 	env := x.newEnv(fr, st, nil)
 	env.noLocals = true
 	env.vars["this"] = this
+	env.vars["changed"] = Scalar{T: "true", Typ: boolT}
+	if write && x.hookNew != nil && x.hookPtr != nil {
+		// changed: does the store alter the stored value?
+		func() {
+			defer func() { recover() }()
+			x.pure++
+			old := x.load(st, *x.hookPtr)
+			x.pure--
+			env.vars["changed"] = Scalar{T: not(x.eqValue(old, x.hookNew)), Typ: boolT}
+		}()
+	}
 	if n, ok := this.Root.(*types.Named); ok && n.Obj().Pkg() != nil {
 		env.pkg = n.Obj().Pkg()
 	}
